@@ -2,7 +2,7 @@ use std::{
     fs,
     io::{self, Read, Write},
     os::unix::fs::PermissionsExt,
-    path::{Path, PathBuf},
+    path::{Component, Path, PathBuf},
     str::FromStr,
 };
 
@@ -120,9 +120,7 @@ impl Package {
 
         // pull every base directory name in the package and create the directory in advance
         for dir in dirs {
-            let dir_path = dest
-                .as_ref()
-                .join(Path::new(dir).strip_prefix("/").unwrap_or(dest.as_ref()));
+            let dir_path = extraction_path(dest.as_ref(), Path::new(dir))?;
             fs::create_dir_all(&dir_path)?;
         }
 
@@ -130,20 +128,17 @@ impl Package {
         // instead of reading each file entirely into memory (while the archive is also entirely in memory) before writing them
         for file in self.files()? {
             let file = file?;
-            let file_path = dest.as_ref().join(
-                file.metadata
-                    .path
-                    .strip_prefix("/")
-                    .unwrap_or(dest.as_ref()),
-            );
+            let file_path = extraction_path(dest.as_ref(), &file.metadata.path)?;
 
             let perms = fs::Permissions::from_mode(file.metadata.mode.permissions().into());
             match file.metadata.mode {
                 FileMode::Dir { .. } => {
+                    remove_symlink(&file_path)?;
                     fs::create_dir_all(&file_path)?;
                     fs::set_permissions(&file_path, perms)?;
                 }
                 FileMode::Regular { .. } => {
+                    remove_symlink(&file_path)?;
                     let mut f = fs::File::create(&file_path)?;
                     f.write_all(&file.content)?;
                     fs::set_permissions(&file_path, perms)?;
@@ -475,6 +470,47 @@ impl Package {
 
         Ok(())
     }
+}
+
+/// Map a path taken from the package onto the extraction directory.
+///
+/// Fails for paths that could leave that directory: `..` components, or a symbolic link (which
+/// an earlier entry of the same package may have planted) among the parent directories.
+fn extraction_path(dest: &Path, path: &Path) -> Result<PathBuf, Error> {
+    let escape = || Error::InvalidDestinationPath {
+        path: path.display().to_string(),
+        desc: "path leaves the extraction directory",
+    };
+    let mut target = dest.to_path_buf();
+    let mut components = path.components().peekable();
+    while let Some(component) = components.next() {
+        match component {
+            Component::RootDir | Component::CurDir => {}
+            Component::Normal(name) => {
+                target.push(name);
+                // only the last component may be an existing symbolic link (it gets replaced)
+                let is_symlink = target
+                    .symlink_metadata()
+                    .map(|m| m.file_type().is_symlink())
+                    .unwrap_or(false);
+                if is_symlink && components.peek().is_some() {
+                    return Err(escape());
+                }
+            }
+            Component::ParentDir | Component::Prefix(_) => return Err(escape()),
+        }
+    }
+    Ok(target)
+}
+
+/// Remove `path` if it is a symbolic link, so that what is created there next cannot follow it.
+fn remove_symlink(path: &Path) -> Result<(), Error> {
+    if let Ok(metadata) = path.symlink_metadata() {
+        if metadata.file_type().is_symlink() {
+            fs::remove_file(path)?;
+        }
+    }
+    Ok(())
 }
 
 #[derive(Clone, Debug, PartialEq)]
